@@ -44,11 +44,15 @@
 (*          and the preprocessor, [conf] of a case the status              *)
 (*   sds    a suite whose instructions have values that depend on the      *)
 (*          sandbox of the running case, listing n cases                   *)
+(*   sym    a suite whose instructions have values that depend on a symbol *)
+(*          that every case defines with a value of its own (INTEGER,      *)
+(*          STRING, REGEX, PATH, LIST, program, matchers, transformers);   *)
+(*          cases with different values, in every order                    *)
 (* (family "file": histories read from a file - seeded random ones)        *)
 (***************************************************************************)
 EXTENDS Naturals, Sequences, FiniteSets, TLC, Json, IOUtils
 
-CONSTANTS Families,      \* subset of {"hist", "merge", "sds", "file"}
+CONSTANTS Families,      \* subset of {"hist", "merge", "sds", "sym", "file"}
           Deviations,    \* named deviations switched on; {} whenever the property is checked
           Muts,          \* hist: the mutations explored (with ending "pass")
           CoreMuts,      \* hist: mutations also explored with every ending of Ends, and in the longer histories
@@ -60,7 +64,10 @@ CONSTANTS Families,      \* subset of {"hist", "merge", "sds", "file"}
                          \*        or "all" (every subset)
           Ways,          \* merge: subset of {"suite", "option", "beside"}
           SdsKinds,      \* sds: the kinds of sandbox dependent instructions
-          SdsCases       \* sds: set of numbers of cases
+          SdsCases,      \* sds: set of numbers of cases
+          SymKinds,      \* sym: the kinds of symbol dependent instructions
+          SymVals,       \* sym: the values a case may give its symbols: subset of {"v1", "v2", "v3"}
+          SymLen         \* sym: suites of 2..SymLen cases (not all with the same value)
 
 \* Named deviations of a program from this specification.  A check always runs with Deviations = {}.  Each name
 \* is one of the realistic defects the property excludes; switched on, TLC must refute the invariant named:
@@ -72,8 +79,11 @@ CONSTANTS Families,      \* subset of {"hist", "merge", "sds", "file"}
 \*   OptionIgnored       --suite ignored                                                   ThreeWaysAgree
 \*   BesideIgnored       exactly.suite beside the case ignored                             ThreeWaysAgree
 \*   SandboxValueCached  a shared instruction object remembers a sandbox dependent value   OwnSandbox
+\*   SymbolValueCached   a shared instruction object remembers a symbol dependent value    OwnSymbols
+\*   LineNumsRangeCached the same, for the range of `filter -line-nums` only (a finding)    OwnSymbols
 DeviationNames == {"EnvNotCopied", "ConfShared", "CwdNotRestored", "SuiteContentsAfter", "Inherited",
-                   "OptionIgnored", "BesideIgnored", "SandboxValueCached"}
+                   "OptionIgnored", "BesideIgnored", "SandboxValueCached", "SymbolValueCached",
+                   "LineNumsRangeCached"}
 ASSUME Deviations \subseteq DeviationNames
 Dev(d) == d \in Deviations
 
@@ -83,7 +93,7 @@ PhaseNames == {PhaseOrder[j] : j \in DOMAIN PhaseOrder}
 ExecOrder == <<"setup", "act", "before-assert", "assert", "cleanup">>
 InstrPhases == <<"setup", "before-assert", "assert", "cleanup">>     \* phases made of instructions
 EnvNames == {"A", "B"}
-SymNames == {"X"}
+SymNames == {"X", "V"}   \* X: the symbol of the hist family; V: what a case of the sym family defines
 NoVal == <<>>            \* a value is a sequence of atoms; the empty one: unset / undefined / empty
 
 \* An instruction: operation, two string arguments, a value argument, and where it is written
@@ -97,8 +107,12 @@ NoVal == <<>>            \* a value is a sequence of atoms; the empty one: unset
 \*           def a=name c=value   ref a=name (an OS process that records the value)   stdin c=value
 \*           fail (a failing assertion)   hard (a failing helper: HARD_ERROR)   bad (not an instruction: syntax error)
 \*           sdsLog a=kind (records a value that depends on the sandbox)   sdsAssert a=kind (asserts on one)
+\*           defOwn c=value (the definitions of a case of the sym family, and two files in tmp/ named after them)
+\*           symLog a=kind (records a value that depends on the symbols)   symAssert a=kind (asserts on one)
+\*           symTimeout a=kind (timeout = a symbol dependent INTEGER: 0 for the value v1, 60 otherwise)
 \*   act:    actline a=sym|plain          (a line that makes the action to check a probe)
 \*           actbad                       (a program that does not exist: the action to check cannot be executed)
+\*           actown c=value               (prints as many lines, and exits with the code, that the value says)
 I(op, a, b, c) == [op |-> op, a |-> a, b |-> b, c |-> c, org |-> "case"]
 From(org, q) == [j \in DOMAIN q |-> [q[j] EXCEPT !.org = org]]
 EmptyDoc == [p \in PhaseNames |-> <<>>]
@@ -222,19 +236,57 @@ SdsDoc(ks) ==
                     [] OTHER               -> <<>>])
 SdsInputs == {[sk |-> ks, n |-> n] : ks \in {{k} : k \in SdsKinds} \cup {SdsKinds}, n \in SdsCases}
 
+\* ---- family sym: values that depend on symbols the cases define, in instructions of the suite -----
+\* kinds that record the value (in [before-assert], "cleanupArg" in [cleanup]), the kind that sets the timeout from
+\* it (followed by an OS process that takes time), and kinds that assert ([assert])
+SymOrder == <<"strArg", "listArg", "shellStr", "envStr", "fileStr", "progSym", "timeoutInt", "cleanupArg",
+              "exitCode", "numLines", "lineNum", "lineNums", "equalsStr", "matchesRx", "pathExists", "textMatcher",
+              "textTransformer", "intMatcher", "lineMatcher">>
+AllSymLog == {"strArg", "listArg", "shellStr", "envStr", "fileStr", "progSym", "cleanupArg"}
+AllSymAssert == {"exitCode", "numLines", "lineNum", "lineNums", "equalsStr", "matchesRx", "pathExists", "textMatcher",
+                 "textTransformer", "intMatcher", "lineMatcher"}
+AllSymKinds == {SymOrder[j] : j \in DOMAIN SymOrder}
+ASSUME SymKinds \subseteq AllSymKinds /\ SymVals \subseteq {"v1", "v2", "v3"}
+OwnFile(v) == CASE v = "v1" -> "own1.txt" [] v = "v2" -> "own2.txt" [] OTHER -> "own3.txt"
+SymDoc(ks) ==
+    LET pick(S) == SelectSeq(SymOrder, LAMBDA k : k \in S \cap ks)
+        logs(S) == [j \in DOMAIN pick(S) |-> I("symLog", pick(S)[j], "", NoVal)]
+        asserts == [j \in DOMAIN pick(AllSymAssert) |-> I("symAssert", pick(AllSymAssert)[j], "", NoVal)]
+        tmo == IF "timeoutInt" \in ks THEN <<I("symTimeout", "timeoutInt", "", NoVal), I("sleep", "mid", "", NoVal)>>
+               ELSE <<>>
+    IN DocFrom("suite",
+               [p \in PhaseNames |->
+                  CASE p = "before-assert" -> logs(AllSymLog \ {"cleanupArg"}) \o tmo
+                    [] p = "assert"        -> asserts
+                    [] p = "cleanup"       -> logs({"cleanupArg"})
+                    [] OTHER               -> <<>>])
+\* a case of the sym family: observes, defines its symbols, observes; its action to check behaves as its value says
+SymCaseDoc(v) == [p \in PhaseNames |->
+                    CASE p = "setup" -> <<Probe("p0"), I("defOwn", "", "", <<v>>), Probe("p1")>>
+                      [] p = "act"   -> <<I("actown", "", "", <<v>>)>>
+                      [] OTHER       -> <<>>]
+\* each kind alone and all together (the timeout kind only alone: after "timeout = 0" no further OS process);
+\* the cases: every sequence of values that are not all the same
+SymInputs == {[sk |-> ks, vs |-> vs] :
+                 ks \in {{k} : k \in SymKinds} \cup {SymKinds \ {"timeoutInt"}},
+                 vs \in UNION {{s \in [1..n -> SymVals] : \E a, b \in 1..n : s[a] # s[b]} : n \in 2..SymLen}}
+
 \* ---- inputs and the file tree they stand for ---------------------------------------------------
 \* family "file": histories read from a file (seeded random ones beyond the exhaustive bounds)
 FileHists == IF "file" \in Families
              THEN LET recs == ndJsonDeserialize(IOEnv.SUITECASES_INPUTS)
                   IN {[j \in DOMAIN r.h |-> <<r.h[j][1], r.h[j][2]>>] : r \in {recs[i] : i \in DOMAIN recs}}
              ELSE {}
-Blank == [fam |-> "", h |-> <<>>, s0 |-> {}, s1 |-> {}, cs |-> {}, sk |-> {}, n |-> 0]
+Blank == [fam |-> "", h |-> <<>>, s0 |-> {}, s1 |-> {}, cs |-> {}, sk |-> {}, n |-> 0, vs |-> <<>>]
 Inputs == (IF "hist" \in Families THEN {[Blank EXCEPT !.fam = "hist", !.h = h] : h \in HistSeqs} ELSE {})
           \cup {[Blank EXCEPT !.fam = "hist", !.h = h] : h \in FileHists}
           \cup (IF "merge" \in Families
                 THEN {[Blank EXCEPT !.fam = "merge", !.s0 = m.s0, !.s1 = m.s1, !.cs = m.cs] : m \in MergeInputs}
                 ELSE {})
           \cup (IF "sds" \in Families THEN {[Blank EXCEPT !.fam = "sds", !.sk = s.sk, !.n = s.n] : s \in SdsInputs}
+                ELSE {})
+          \cup (IF "sym" \in Families
+                THEN {[Blank EXCEPT !.fam = "sym", !.sk = s.sk, !.vs = s.vs, !.n = Len(s.vs)] : s \in {y \in SymInputs : y.sk # {}}}
                 ELSE {})
 
 \* suite files: 0 = the root, 1 = the sub-suite (family merge only); case files 1..NCases(x)
@@ -243,9 +295,11 @@ HasSub(x) == x.fam = "merge"
 HomeOf(x, c) == IF x.fam = "merge" /\ c = 2 THEN 1 ELSE 0          \* the suite that lists case c
 OwnDoc(x, c) == CASE x.fam = "hist"  -> KindDoc(x.h[c])
                   [] x.fam = "merge" -> ProbeDoc("case", x.cs)
+                  [] x.fam = "sym"   -> SymCaseDoc(x.vs[c])
                   [] OTHER           -> KindDoc(<<"none", "pass">>)
 SuiteDoc(x, u) == CASE x.fam = "merge" -> (IF u = 0 THEN ProbeDoc("suite", x.s0) ELSE ProbeDoc("sub", x.s1))
                     [] x.fam = "sds"   -> SdsDoc(x.sk)
+                    [] x.fam = "sym"   -> SymDoc(x.sk)
                     [] OTHER           -> EmptyDoc
 SuitePre(x, u) == x.fam = "merge" /\ "conf" \in (IF u = 0 THEN x.s0 ELSE x.s1)     \* [conf] sets a preprocessor
 CasesOf(x, u) == IF x.fam = "merge" THEN (IF u = 0 THEN <<1>> ELSE <<2>>)
@@ -254,6 +308,7 @@ CasesOf(x, u) == IF x.fam = "merge" THEN (IF u = 0 THEN <<1>> ELSE <<2>>)
 RunsOf(x) ==
     CASE x.fam = "hist"  -> {<<"suite", 0>>} \cup (IF Len(x.h) = 1 THEN {"plain", "option", "beside"} \X {1} ELSE {})
       [] x.fam = "merge" -> (Ways \cap {"suite"}) \X {0} \cup (Ways \cap {"option", "beside"}) \X {1, 2}
+      [] x.fam = "sym"   -> {<<"suite", 0>>, <<"plain", 1>>} \cup {"option", "beside"} \X (1..x.n)
       [] OTHER           -> {<<"suite", 0>>, <<"option", x.n>>}
 
 \* ---- the state of the process and the settings of a case ---------------------------------------
@@ -275,12 +330,13 @@ Rec(kind, i, L, c, ph, pp, x, sds, rem) ==
         cwd |-> L.cwd, A |-> e["A"], B |-> e["B"], files |-> L.files,
         stdin |-> IF ph = "act" THEN L.stdin ELSE NoVal, x |-> x, sds |-> sds, rem |-> rem]
 
-\* One instruction step.  cached: the sandbox a shared instruction object remembers (0: none; only with the
-\* deviation SandboxValueCached).  Result: new settings, outcome, records.
-Step(i, L, c, ph, pp, cached) ==
+\* One instruction step.  cached / cval: the sandbox / the symbol value a shared instruction object remembers
+\* (0 / NoVal: none; only with a deviation).  Result: new settings, outcome, records.
+Step(i, L, c, ph, pp, cached, cval) ==
     LET ok(L2, recs) == [L |-> L2, out |-> "ok", recs |-> recs]
         proc(L2, recs) == IF L.timeout = "0" THEN [L |-> L2, out |-> "hard", recs |-> <<>>] ELSE ok(L2, recs)
         sid == IF cached # 0 THEN cached ELSE L.sid
+        val == IF cval # NoVal THEN cval ELSE L.syms["V"]
     IN CASE i.op = "probe"     -> proc(L, <<Rec("probe", i, L, c, ph, pp, NoVal, L.sid, NoVal)>>)
          [] i.op = "envSet"    -> ok(SetEnv(L, i.a, i.b, LAMBDA old : i.c), <<>>)
          [] i.op = "envApp"    -> ok(SetEnv(L, i.a, i.b, LAMBDA old : old \o i.c), <<>>)
@@ -303,9 +359,16 @@ Step(i, L, c, ph, pp, cached) ==
                                           [] OTHER            -> L,
                                         <<Rec("sds", i, L, c, ph, pp, NoVal, sid, Rem(i.a))>>)
          [] i.op = "sdsAssert" -> IF sid = L.sid THEN proc(L, <<>>) ELSE [L |-> L, out |-> "fail", recs |-> <<>>]
+         [] i.op = "defOwn"    -> ok([L EXCEPT !.syms["V"] = i.c,
+                                                !.files = @ \cup {<<"tmp", "own.txt">>, <<"tmp", OwnFile(i.c[1])>>}], <<>>)
+         [] i.op = "symLog"    -> proc(IF i.a = "fileStr" THEN [L EXCEPT !.files = @ \cup {<<"tmp", "ks.txt">>}] ELSE L,
+                                       <<Rec("sym", i, L, c, ph, pp, val, L.sid, NoVal)>>)
+         [] i.op = "symAssert" -> IF val = L.syms["V"] THEN ok(L, <<>>) ELSE [L |-> L, out |-> "fail", recs |-> <<>>]
+         [] i.op = "symTimeout" -> ok([L EXCEPT !.timeout = IF val = <<"v1">> THEN "0" ELSE "60"], <<>>)
          [] OTHER              -> ok(L, <<>>)
 \* a line of [act] executed by the action to check
 ActStep(i, L, c, pp) == IF L.timeout = "0" \/ i.op = "actbad" THEN [L |-> L, out |-> "hard", recs |-> <<>>]
+                        ELSE IF i.op = "actown" THEN [L |-> L, out |-> "ok", recs |-> <<>>]
                         ELSE [L |-> L, out |-> "ok", recs |-> <<Rec("probe", i, L, c, "act", pp, NoVal, L.sid, NoVal)>>]
 
 \* ---- [conf], [act] syntax, symbol validation ---------------------------------------------------
@@ -327,6 +390,8 @@ SymsOK(q, defined) ==
     IF q = <<>> THEN TRUE
     ELSE CASE Head(q).op = "def" -> Head(q).a \notin defined /\ SymsOK(Tail(q), defined \cup {Head(q).a})
            [] Head(q).op = "ref" -> Head(q).a \in defined /\ SymsOK(Tail(q), defined)
+           [] Head(q).op = "defOwn" -> "V" \notin defined /\ SymsOK(Tail(q), defined \cup {"V"})
+           [] Head(q).op \in {"symLog", "symAssert", "symTimeout"} -> "V" \in defined /\ SymsOK(Tail(q), defined)
            [] OTHER              -> SymsOK(Tail(q), defined)
 Defined(syms) == {n \in SymNames : syms[n] # NoVal}
 Ident(status, out) == CASE out = "hard" -> "HARD_ERROR"
@@ -340,7 +405,7 @@ Merge(suite, case) == [p \in PhaseNames |-> IF p = "cleanup" THEN case[p] \o sui
 RECURSIVE RunInstrs(_, _, _, _, _)
 RunInstrs(q, st, c, ph, pp) ==
     IF q = <<>> \/ st.out # "ok" THEN st
-    ELSE LET r == Step(Head(q), st.L, c, ph, pp, 0)
+    ELSE LET r == Step(Head(q), st.L, c, ph, pp, 0, NoVal)
          IN RunInstrs(Tail(q), [L |-> r.L, out |-> r.out, log |-> st.log \o r.recs], c, ph, pp)
 RECURSIVE RunAct(_, _, _, _)
 RunAct(q, st, c, pp) ==
@@ -374,7 +439,8 @@ VARIABLES inp,     \* the input
           P,       \* the state of the process
           log,     \* the records written so far
           idents,  \* <<case, identifier>> of the cases processed so far
-          cache    \* per kind: the sandbox a shared sds instruction object of the suite remembers (0: none)
+          cache    \* per kind: the case whose sandbox / symbol values a shared instruction object of the suite
+                   \* remembers (0: none)
 vars == <<inp, way, tgt, pc, contrib, queue, cur, P, log, idents, cache>>
 
 None == 9          \* "no suite applies"
@@ -390,7 +456,7 @@ Init == /\ inp \in Inputs
         /\ P = P0
         /\ log = <<>>
         /\ idents = <<>>
-        /\ cache = [k \in AllSdsLog \cup AllSdsAssert \cup AllSdsDo |-> 0]
+        /\ cache = [k \in AllSdsLog \cup AllSdsAssert \cup AllSdsDo \cup AllSymKinds |-> 0]
 
 \* Reading: what every suite file contributes to the cases it lists - its own contents, nothing of its parent -
 \* and which cases are processed in which order (sub-suites first).
@@ -478,8 +544,12 @@ ExecInstr ==
     /\ pc = "exec" /\ Phase # "act"
     /\ cur.out = "ok" /\ cur.ix <= Len(PhaseSeq)
     /\ LET i == PhaseSeq[cur.ix]
-           shared == i.org # "case" /\ i.op \in {"sdsLog", "sdsAssert"} /\ Dev("SandboxValueCached")
-           r == Step(i, cur.L, cur.c, Phase, cur.pp, IF shared THEN cache[i.a] ELSE 0)
+           sdsShared == i.org # "case" /\ i.op \in {"sdsLog", "sdsAssert"} /\ Dev("SandboxValueCached")
+           symShared == /\ i.org # "case" /\ i.op \in {"symLog", "symAssert", "symTimeout"}
+                        /\ Dev("SymbolValueCached") \/ (Dev("LineNumsRangeCached") /\ i.a = "lineNums")
+           shared == sdsShared \/ symShared
+           r == Step(i, cur.L, cur.c, Phase, cur.pp, IF sdsShared THEN cache[i.a] ELSE 0,
+                     IF symShared /\ cache[i.a] # 0 THEN <<inp.vs[cache[i.a]]>> ELSE NoVal)
        IN /\ cur' = [cur EXCEPT !.L = r.L, !.out = r.out, !.ix = @ + 1]
           /\ log' = log \o r.recs
           /\ P' = WriteThrough(i, r.L)
@@ -559,6 +629,10 @@ ThreeWaysAgree == Done /\ way # "plain"
                   => \A c \in Processed : IdentOf(c) = Declared(inp, c).id /\ LogOf(c) = Declared(inp, c).log
 \* every value that depends on the sandbox is that of the sandbox of the running case
 OwnSandbox == \A j \in DOMAIN log : log[j].sds = log[j].c
+\* every value that depends on symbols is computed from the definitions of the running case
+OwnSymbols == /\ \A j \in DOMAIN log : log[j].k = "sym" => log[j].x = <<inp.vs[log[j].c]>>
+              /\ Done /\ inp.fam = "sym" /\ way # "plain"
+                 => \A c \in Processed : IdentOf(c) = Declared(inp, c).id
 \* the preprocessor of a suite is applied to the cases it lists, and only to them
 Preprocessed == \A j \in DOMAIN log : (log[j].pp = "y") = (log[j].org = "case" /\ way # "plain"
                                                             /\ SuitePre(inp, HomeOf(inp, log[j].c)))
